@@ -2,6 +2,7 @@ package c18
 
 import (
 	"context"
+	"os"
 	"sync"
 	"testing"
 	"time"
@@ -203,6 +204,135 @@ func TestRegressSharedIPPeers(t *testing.T) {
 				evid.R.Note("shared-IP regression script %q: the second peer was not penalised while connected and banned (label %s missing; slow run?)", sc.name, sc.label)
 			}
 			register("e2e-shared-ip-regress", res)
+		}
+	}
+}
+
+// TestRegressMultiConnPeers: fixed scenarios with a peer that holds 2-3 SIMULTANEOUS connections to the penalising node
+// (one libp2p host per connection, one key; the first connection opened by the peer or by the node) at the moment of an
+// offence of every kind. "Once the total reaches the ban threshold the peer is disconnected": no connection to the peer
+// may remain - whichever connection carried the offending message -, every re-dial (from each of the peer's sockets and
+// from the node) is refused while the ban is certain, and after the ban the peer is accepted, served and clean.
+// (A ban path that closes only the connection the offending stream arrived on leaves the peer connected here.)
+func TestRegressMultiConnPeers(t *testing.T) {
+	type script struct {
+		name  string
+		cause string
+		c     mcycle
+	}
+	bad := []byte{0x0a, 0x05, 0x01}
+	scripts := []script{
+		{"undecodable request over connection 1 of 2 (both inbound)", "badreq", mcycle{NConn: 2, Offence: "badreq", Via: []int{1}, Bytes: bad}},
+		{"unknown procedure in a request over connection 0 of 3 (first one outbound)", "unkreq", mcycle{NConn: 3, VFirst: true, Offence: "unkreq", Via: []int{0}}},
+		{"undecodable response over connection 2 of 3", "badres", mcycle{NConn: 3, Offence: "badres", Via: []int{2}, Bytes: bad}},
+		{"unknown procedure in a response over connection 1 of 2 (first one outbound)", "unkres", mcycle{NConn: 2, VFirst: true, Offence: "unkres", Via: []int{1}}},
+		{"rate limit exceeded with requests spread over 3 connections", "rate-limit(echo)", mcycle{NConn: 3, Offence: "rate", Via: []int{0, 1, 2, 0}}},
+		{"ApplyPenalty 20, 20, then to the threshold, over 2 connections (first one outbound)", "app-penalty", mcycle{NConn: 2, VFirst: true, Offence: "app-penalty", Via: []int{0, 1, 1, 0}, K: []int{20, 20, 100}}},
+		{"BanPeer from a handler, request over connection 1 of 3", "app-ban", mcycle{NConn: 3, Offence: "app-ban", Via: []int{1}}},
+		{"IPv6: unknown procedure in a request over connection 1 of 2", "unkreq", mcycle{NConn: 2, Offence: "unkreq", Via: []int{1}}},
+	}
+	results := make([]*seqResult, len(scripts))
+	var wg sync.WaitGroup
+	for i, sc := range scripts {
+		s := escn{On: true, Multi: true, N: 1, IPs: []int{2 + i%8}, V6: i == len(scripts)-1,
+			Security: []string{p2p.ConnectionSecurityNone, p2p.ConnectionSecurityTLS, p2p.ConnectionSecurityNoise}[i%3],
+			ExpiryS:  2, SweepMs: 100, Limit: 4, Penalty: 50, PL: []int{4, 3, 5}, PP: []int{50, 34, 100}, BlackOf: -1, DialOnly: -1}
+		c := sc.c
+		c.Warm, c.WarmP = []int{0, 1, 2, 1}, []int{0, 1, 2, 0}
+		c.Redial = []int{1, 0, -1}
+		c.After = []int{0, -1, 2}[i%3]
+		c.KAfter = 7
+		s.MC = []mcycle{c}
+		wg.Add(1)
+		go func(i int, s escn) {
+			defer wg.Done()
+			results[i] = runScenarioRobust(s)
+		}(i, s)
+	}
+	wg.Wait()
+	for i, sc := range scripts {
+		res := results[i]
+		switch {
+		case res.violation != "":
+			t.Errorf("C18 violated (peer with several simultaneous connections, %s; 3 attempts): %s\nhistory:\n%s", sc.name, res.violation, res.render())
+		case res.infra != "":
+			evid.R.Inconclusive("multi-connection regression scenario %q dropped: %s", sc.name, res.infra)
+		default:
+			if !res.labels["multi-conn:all-connections-closed-after-ban:"+sc.cause] {
+				t.Errorf("harness: script %q passed without banning the peer while it held several connections\n%s", sc.name, res.render())
+			}
+			if !res.nontrivial {
+				evid.R.Note("multi-connection regression script %q: no refusal observed while the ban was certain (slow run)", sc.name)
+			}
+			register("e2e-multi-conn-regress", res)
+			if os.Getenv("VERIF_C18_SHOW") != "" {
+				t.Logf("%s (non-trivial=%v):\n%s", sc.name, res.nontrivial, res.render())
+			}
+		}
+	}
+}
+
+// TestRegressRateLimitPerProcedure: every RPC procedure has its own message counter per peer. Fixed scripts, short
+// rate-limit intervals: (1) legal traffic only: three procedures with limit 5 each are filled exactly to their limits
+// (15 messages, 5 per procedure) before the first reset tick, after an observed reset, and in the other direction after
+// another reset: no score anywhere, still connected, nobody listed; (2) the mirror: after an observed reset node 1 sends
+// limit+1 messages of ONE procedure next to legal amounts of the others: exactly one penalty of that procedure, twice
+// (2 x 50 = ban), with the ban consequences and a clean score afterwards.
+// (A reset that hands ONE fresh counter map to all procedures makes them count into a shared counter from the first
+// tick on: the 6th message of the legal mix is penalised.)
+func TestRegressRateLimitPerProcedure(t *testing.T) {
+	order := []byte{3, 1, 4, 1, 5, 9, 2, 6, 5, 3, 5, 8, 9, 7, 9, 3, 2, 3, 8, 4, 6, 2, 6, 4}
+	mix := func(from, to int) eev { return eev{Kind: "mix", From: from, To: to, Burst: "tolimit", Bytes: order} }
+	legal := escn{On: true, Legal: true, N: 2, IPs: []int{6, 7}, Security: p2p.ConnectionSecurityNone, ExpiryS: 2, SweepMs: 100,
+		Limit: 5, Penalty: 100, PL: []int{5, 5, 5}, PP: []int{100, 100, 100}, RateMs: 1500, BlackOf: -1, DialOnly: -1}
+	legal.Events = []eev{mix(1, 0), {Kind: "resetwait", From: 1, To: 0}, mix(1, 0), {Kind: "resetwait", From: 1, To: 0}, mix(0, 1),
+		{Kind: "resetwait", From: 1, To: 0}, {Kind: "burst", From: 1, To: 0, Proc: 2, Burst: "tolimit"}, {Kind: "burst", From: 1, To: 0, Proc: 1, Burst: "tolimit"}}
+	legalFast := legal
+	legalFast.IPs, legalFast.RateMs, legalFast.Security = []int{8, 9}, 300, p2p.ConnectionSecurityNoise
+	legalFast.PL, legalFast.PP = []int{5, 3, 4}, []int{10, 25, 34}
+	mirror := escn{On: true, Mirror: true, N: 2, IPs: []int{4, 5}, Security: p2p.ConnectionSecurityTLS, ExpiryS: 2, SweepMs: 100,
+		Limit: 5, Penalty: 50, PL: []int{5, 4, 3}, PP: []int{50, 50, 100}, RateMs: 1000, BlackOf: -1, DialOnly: -1}
+	mirror.Events = []eev{mix(1, 0), {Kind: "over", From: 1, To: 0, Proc: 0, Burst: "tolimit", Bytes: order}, mix(1, 0),
+		{Kind: "over", From: 1, To: 0, Proc: 1, Burst: "within", Extra: 1, Bytes: order},
+		{Kind: "dial", From: 1, To: 0}, {Kind: "dial", From: 0, To: 1}, {Kind: "await", From: 1, To: 0}, {Kind: "dial", From: 1, To: 0},
+		{Kind: "resetwait", From: 1, To: 0}, mix(1, 0), {Kind: "app", From: 1, To: 0, K: 7}}
+	type script struct {
+		name   string
+		s      escn
+		labels []string
+	}
+	scripts := []script{
+		{"legal traffic over three procedures, interval 1.5 s", legal, []string{"legal-mix:sum-exceeds-a-single-limit-before-the-first-tick", "legal-mix:sum-exceeds-a-single-limit-after-an-observed-reset"}},
+		{"legal traffic over three procedures, interval 300 ms", legalFast, []string{"legal-mix:sum-exceeds-a-single-limit-after-an-observed-reset"}},
+		{"one procedure over its limit after resets", mirror, []string{"one-procedure-over-its-limit-penalised-after-the-first-tick", "banned-by:rate-limit(echo2)"}},
+	}
+	results := make([]*seqResult, len(scripts))
+	var wg sync.WaitGroup
+	for i, sc := range scripts {
+		wg.Add(1)
+		go func(i int, s escn) {
+			defer wg.Done()
+			results[i] = runScenarioRobust(s)
+		}(i, sc.s)
+	}
+	wg.Wait()
+	for i, sc := range scripts {
+		res := results[i]
+		switch {
+		case res.violation != "":
+			t.Errorf("C18 violated (rate limit per procedure, %s; 3 attempts): %s\nhistory:\n%s", sc.name, res.violation, res.render())
+		case res.infra != "":
+			evid.R.Inconclusive("rate-limit regression scenario %q dropped: %s", sc.name, res.infra)
+		default:
+			for _, l := range sc.labels {
+				if !res.labels[l] {
+					evid.R.Note("rate-limit regression script %q: label %s missing (slow run)", sc.name, l)
+				}
+			}
+			register("e2e-rate-per-procedure-regress", res)
+			if os.Getenv("VERIF_C18_SHOW") != "" {
+				t.Logf("%s (non-trivial=%v):\n%s", sc.name, res.nontrivial, res.render())
+			}
 		}
 	}
 }
